@@ -259,6 +259,78 @@ theorem live_listAttach_refines {l : Addr} {n' : Node} (hi : Inv h) (hi' : Inv h
   · exact Or.inr (Or.inr (Or.inr h1))
   · exact Or.inr (Or.inl h1)
 
+/-- replacing the node found at an existing position is `addAtSegs` -/
+theorem updateAtSegs_const {n' : Node} : ∀ (segs : List String) (d : AMap Node) (n : Node),
+    lookupSegs d segs = some n → updateAtSegs d (fun _ => n') segs = addAtSegs d segs n'
+  | [], _, _, hl => by simp [lookupSegs] at hl
+  | [last], d, n, hl => by
+    simp only [lookupSegs] at hl
+    simp only [updateAtSegs, addAtSegs, hl]
+  | p :: q :: rest, d, n, hl => by
+    simp only [lookupSegs] at hl
+    cases hc : child d p with
+    | none => simp [hc] at hl
+    | some m =>
+      cases m with
+      | leaf s => simp [hc] at hl
+      | list xs => simp [hc] at hl
+      | cont c =>
+        simp only [hc] at hl
+        simp only [updateAtSegs, addAtSegs, hc]
+        rw [updateAtSegs_const (q :: rest) c n hl]
+
+/-- a change below the live handle `x` that turns its abstraction into `xn'`, seen from the root:
+    `xn'` is stored at the handle's path -/
+theorem live_restore_refines {P : Addr → Prop} {xn' : Node} (hi : Inv h) (hi' : Inv h') (hs : SibSep h root)
+    (hd : abs h root = some (.cont d)) (hl : lookupSegsH h root segs = some x) (hsz : h.size ≤ h'.size)
+    (hfr : FrameOn h h' (fun b => Reach h x b ∧ Composite h b)) (hst : Stable h' (Foot h (some x) P) x xn') :
+    abs h' root = some (.cont (addAtSegs d segs xn')) := by
+  obtain ⟨_, n, hn, _⟩ := lookupSegsH_abs segs root x d ⟨_, abs_absH hd⟩ hl
+  obtain ⟨_, hst'⟩ := path_replace hi.mapsOk hsz hfr hst (fun _ => xn') (fun _ _ => rfl) segs root d
+    ⟨_, abs_absH hd⟩ hs hl
+  obtain ⟨f', hf'⟩ := hst'.abs
+  rw [updateAtSegs_const segs d n hn] at hf'
+  exact abs_eq_of_absH hi'.closed hi'.acyclic hf'
+
+/-- the container cell a container call succeeded on, with its abstraction -/
+theorem live_cont_abs {kvs : AMap Addr} {xn : Node} (hd : abs h root = some (.cont d))
+    (hl : lookupSegsH h root segs = some x) (hg : h.get? x = some (.cont kvs)) (hxn : abs h x = some xn) :
+    Reach h root x ∧ ∃ dx, xn = .cont dx ∧ Abs h x (.cont dx) := by
+  obtain ⟨hrx, n, _, hxa⟩ := lookupSegsH_abs segs root x d ⟨_, abs_absH hd⟩ hl
+  obtain ⟨_, dx, _, rfl⟩ := hxa.cont_inv hg
+  exact ⟨hrx, dx, Abs.unique ⟨_, abs_absH hxn⟩ hxa, hxa⟩
+
+/-- AddContainer / AddList on a live container handle, stated as the re-stored subtree -/
+theorem live_restoreNew_refines {c0 : Cell} {n0 : Node} {dx : AMap Node} (hk : c0.kids = [])
+    (hs0 : ∀ kvs, c0 = .cont kvs → AMap.Sorted kvs)
+    (hn0 : ∀ f, absH (f + 1) (h.alloc c0).1 h.size = some n0)
+    (hi : Inv h) (hi' : Inv h') (hs : SibSep h root) (hrl : root < h.size) (hd : abs h root = some (.cont d))
+    (hl : lookupSegsH h root segs = some x) (hdx : Abs h x (.cont dx)) {name : String}
+    (he : addH (h.alloc c0).1 x name h.size = some h') :
+    abs h' root = some (.cont (addAtSegs d segs (.cont (Ytk.add dx name n0)))) := by
+  obtain ⟨rank, hr⟩ := hi.acyclic
+  have hle := le_alloc h c0
+  have hi1 : Inv (h.alloc c0).1 :=
+    ⟨closed_alloc hi.closed (by rw [hk]; intro k hkm; cases hkm), ⟨rank, rankedBy_alloc_empty hr hk⟩,
+      mapsOk_alloc hi.mapsOk hs0, nilOk_mono hi.nilOk hle⟩
+  have hd1 : abs (h.alloc c0).1 root = some (.cont d) :=
+    absH_fuel_le (size_le_of_le hle) (absH_mono hle _ _ _ (abs_absH hd))
+  have hag : ∀ b, Reach h root b → (h.alloc c0).1.get? b = h.get? b :=
+    fun b hb => get?_eq_of_le hle (reach_lt hi.closed hb hrl)
+  have hl1 : lookupSegsH (h.alloc c0).1 root segs = some x := by
+    rw [lookupSegsH_congr segs root hag]; exact hl
+  have hrx : Reach h root x := (lookupSegsH_abs segs root x d ⟨_, abs_absH hd⟩ hl).1
+  have hxl : x < h.size := reach_lt hi.closed hrx hrl
+  have hs1 : SibSep (h.alloc c0).1 root := hs.of_le hle hi.closed hrl
+  have hvst : Stable (h.alloc c0).1 (Reach (h.alloc c0).1 h.size) h.size n0 := Stable.of_abs ⟨_, hn0 0⟩
+  obtain ⟨hsz, hfr, hst⟩ := Refine.addH_spec hi1.nilOk hvst (hdx.mono hle)
+    (sibSep_of_reach hs1 (reach_mono hle hrx)) (fun kvs hg => hi1.mapsOk x kvs hg)
+    (fun b hxb _ hbb => by
+      have hb : b = h.size := reach_of_no_kids (get?_alloc_new h c0) hk hbb
+      have : b < h.size := reach_lt hi.closed (reach_of_le hle hi.closed hxb hxl) hxl
+      exact Nat.lt_irrefl _ (hb ▸ this)) he
+  exact live_restore_refines hi1 hi' hs1 hd1 hl1 hsz hfr hst
+
 end live
 
 /-! ## 3. the value-level calls a call on a handle corresponds to -/
@@ -269,17 +341,34 @@ def HOp.atRoot (vn : Node) : HOp → Option (List BOp)
   | .lookup _ _ => some []
   | op => (op.toBOp vn).map fun b => [b]
 
+/-- the fallback correspondence for a container handle: re-store the handle's updated subtree at its
+    path — `xn` is the abstraction of the handle, `f` the value-level edit of its children -/
+def restoreAt (p : String) (xn : Node) (f : AMap Node → AMap Node) : Option (List BOp) :=
+  match xn with
+  | .cont dx => some [.addValueAt p (.cont (f dx))]
+  | _ => none
+
 /-- a call made on the handle that sits at the non-empty path string `p` (what `Lookup(p)` returns):
     the PATH-LEVEL call at `p` extended by the call's own name / path (`utils.ToPath`), list calls
-    are addressed by `p` itself.  `vn` = the abstraction of the value node.  Member names containing
-    a '.' have no path-level counterpart (`x.AddValue("a.b", v)` stores the literal key, a path would
-    be split); `Walk(CompactFn)` on a sub-container has no `BOp`. -/
-def HOp.atSub (p : String) (vn : Node) : HOp → Option (List BOp)
-  | .addValue _ name _ => if '.' ∈ name.toList then none else some [.addValueAt (toPath p name) vn]
+    are addressed by `p` itself.  `vn` = the abstraction of the value node, `xn` = the abstraction of
+    the handle.  Two kinds of calls have no path-level counterpart and are rendered by `restoreAt`
+    (the handle's updated subtree is stored at `p`): a member name containing a '.'
+    (`x.AddValue("a.b", v)` stores the literal key, a path would be split) and `Walk(CompactFn)` on a
+    sub-container (`BOp.compact` is the root call). -/
+def HOp.atSub (p : String) (vn xn : Node) : HOp → Option (List BOp)
+  | .addValue _ name _ =>
+    if '.' ∈ name.toList then restoreAt p xn fun dx => Ytk.add dx name vn
+    else some [.addValueAt (toPath p name) vn]
   | .addValueAt _ path _ => some [.addValueAt (toPath p path) vn]
-  | .addContainer _ name => if '.' ∈ name.toList then none else some [.addValueAt (toPath p name) (.cont [])]
-  | .addList _ name => if '.' ∈ name.toList then none else some [.addValueAt (toPath p name) (.list [])]
-  | .remove _ name => if '.' ∈ name.toList then none else some [.removeAt (toPath p name)]
+  | .addContainer _ name =>
+    if '.' ∈ name.toList then restoreAt p xn fun dx => Ytk.add dx name (.cont [])
+    else some [.addValueAt (toPath p name) (.cont [])]
+  | .addList _ name =>
+    if '.' ∈ name.toList then restoreAt p xn fun dx => Ytk.add dx name (.list [])
+    else some [.addValueAt (toPath p name) (.list [])]
+  | .remove _ name =>
+    if '.' ∈ name.toList then restoreAt p xn fun dx => Ytk.remove dx name
+    else some [.removeAt (toPath p name)]
   | .removeAt _ path => some [.removeAt (toPath p path)]
   | .child _ _ => some []
   | .lookup _ _ => some []
@@ -287,12 +376,12 @@ def HOp.atSub (p : String) (vn : Node) : HOp → Option (List BOp)
   | .listMustSet _ i _ => some [.listMustSet p i vn]
   | .listAppend _ _ => some [.listAppend p vn]
   | .listClear _ => some [.listClear p]
-  | .compact _ => none
+  | .compact _ => restoreAt p xn compactKvs
 
 /-- THE CORRESPONDENCE of one call: the value-level calls for a heap-level call made on the handle at
     path `p` (`p = ""`: the root itself) -/
-def HOp.atPath (p : String) (vn : Node) (op : HOp) : Option (List BOp) :=
-  if p = "" then op.atRoot vn else op.atSub p vn
+def HOp.atPath (p : String) (vn xn : Node) (op : HOp) : Option (List BOp) :=
+  if p = "" then op.atRoot vn else op.atSub p vn xn
 
 /-- the handle `x` is LIVE at `p`: it is the root (`p = ""`) or what `root.Lookup(p)` returns now -/
 def LiveAt (h : Heap) (root x : Addr) (p : String) : Prop :=
@@ -335,8 +424,8 @@ theorem live_list_abs {h : Heap} {root l : Addr} {d : AMap Node} {segs : List St
 theorem hstep_live_refines {h h' : Heap} {root : Addr} {op : HOp} {ret : Option Addr} {d : AMap Node} {vn : Node}
     {p : String} {bops : List BOp} (hi : Inv h) (hs : SibSep h root) (hrl : root < h.size)
     (hok : op.TreeOk h root) (hlive : LiveAt h root op.target p) (hd : abs h root = some (.cont d))
-    (hv : ∀ v, op.value = some v → abs h v = some vn) (hb : op.atPath p vn = some bops)
-    (he : hstep h op = .ok (h', ret)) :
+    (hv : ∀ v, op.value = some v → abs h v = some vn) {xn : Node} (hxn : abs h op.target = some xn)
+    (hb : op.atPath p vn xn = some bops) (he : hstep h op = .ok (h', ret)) :
     ∃ d', brun d bops = .ok d' ∧ abs h' root = some (.cont d') := by
   obtain ⟨hi', hs'⟩ := hstep_tree hi hs hrl hok he
   by_cases hp : p = ""
@@ -374,7 +463,19 @@ theorem hstep_live_refines {h h' : Heap} {root : Addr} {op : HOp} {ret : Option 
     | addValue x name v =>
       simp only [HOp.atSub] at hb
       split at hb
-      · cases hb
+      · obtain ⟨y, hx, hf⟩ := outcome_unwrap _ _ he
+        cases hf
+        obtain ⟨hvl, _, hap⟩ := hval v rfl
+        obtain ⟨kvs, hgx⟩ := addH_cont hx
+        obtain ⟨hrx, dx, rfl, hdx⟩ := live_cont_abs hd hl hgx hxn
+        simp only [restoreAt, Option.some.injEq] at hb; subst hb
+        obtain ⟨hsz, hfr, hst⟩ := Refine.addH_spec hi.nilOk (Stable.of_abs ⟨_, abs_absH (hv v rfl)⟩) hdx
+          (sibSep_of_reach hs hrx) (fun kvs hg => hi.mapsOk x kvs hg)
+          (fun b hb hc hvb => hap b (hrx.trans hb) hvb hc) hx
+        have := live_restore_refines hi hi' hs hd hl hsz hfr hst
+        refine ⟨_, (by simp only [brun, bstep] <;> rfl), ?_⟩
+        unfold addValueAt
+        exact this
       · rename_i hdot
         simp only [Option.some.injEq] at hb; subst hb
         obtain ⟨y, hx, hf⟩ := outcome_unwrap _ _ he
@@ -402,7 +503,26 @@ theorem hstep_live_refines {h h' : Heap} {root : Addr} {op : HOp} {ret : Option 
     | addContainer x name =>
       simp only [HOp.atSub] at hb
       split at hb
-      · cases hb
+      · obtain ⟨y, hx, hf⟩ := outcome_unwrap _ _ he
+        obtain ⟨h2, b⟩ := y
+        cases hf
+        have he' : addH (h.alloc (.cont [])).1 x name h.size = some h2 := by
+          unfold addContainerH at hx
+          simp only at hx
+          split at hx
+          · rename_i h2' he'
+            simp only [Option.some.injEq, Prod.mk.injEq] at hx
+            rw [← hx.1]; exact he'
+          · cases hx
+        obtain ⟨kvs, hgx⟩ := addH_cont he'
+        rw [get?_eq_of_le (le_alloc h _) (show x < h.size from hxl)] at hgx
+        obtain ⟨hrx, dx, rfl, hdx⟩ := live_cont_abs hd hl hgx hxn
+        simp only [restoreAt, Option.some.injEq] at hb; subst hb
+        have := live_restoreNew_refines (n0 := .cont []) rfl (fun kvs hk => by cases hk; exact .nil)
+          (fun f => by rw [absH, get?_alloc_new]; rfl) hi hi' hs hrl hd hl hdx he'
+        refine ⟨_, (by simp only [brun, bstep] <;> rfl), ?_⟩
+        unfold addValueAt
+        exact this
       · rename_i hdot
         simp only [Option.some.injEq] at hb; subst hb
         obtain ⟨y, hx, hf⟩ := outcome_unwrap _ _ he
@@ -424,7 +544,26 @@ theorem hstep_live_refines {h h' : Heap} {root : Addr} {op : HOp} {ret : Option 
     | addList x name =>
       simp only [HOp.atSub] at hb
       split at hb
-      · cases hb
+      · obtain ⟨y, hx, hf⟩ := outcome_unwrap _ _ he
+        obtain ⟨h2, b⟩ := y
+        cases hf
+        have he' : addH (h.alloc (.list [])).1 x name h.size = some h2 := by
+          unfold addListH at hx
+          simp only at hx
+          split at hx
+          · rename_i h2' he'
+            simp only [Option.some.injEq, Prod.mk.injEq] at hx
+            rw [← hx.1]; exact he'
+          · cases hx
+        obtain ⟨kvs, hgx⟩ := addH_cont he'
+        rw [get?_eq_of_le (le_alloc h _) (show x < h.size from hxl)] at hgx
+        obtain ⟨hrx, dx, rfl, hdx⟩ := live_cont_abs hd hl hgx hxn
+        simp only [restoreAt, Option.some.injEq] at hb; subst hb
+        have := live_restoreNew_refines (n0 := .list []) rfl (fun kvs hk => by cases hk)
+          (fun f => by rw [absH, get?_alloc_new]; rfl) hi hi' hs hrl hd hl hdx he'
+        refine ⟨_, (by simp only [brun, bstep] <;> rfl), ?_⟩
+        unfold addValueAt
+        exact this
       · rename_i hdot
         simp only [Option.some.injEq] at hb; subst hb
         obtain ⟨y, hx, hf⟩ := outcome_unwrap _ _ he
@@ -446,7 +585,16 @@ theorem hstep_live_refines {h h' : Heap} {root : Addr} {op : HOp} {ret : Option 
     | remove x name =>
       simp only [HOp.atSub] at hb
       split at hb
-      · cases hb
+      · obtain ⟨y, hx, hf⟩ := outcome_unwrap _ _ he
+        cases hf
+        obtain ⟨kvs, hgx⟩ := remove_cont hx
+        obtain ⟨hrx, dx, rfl, hdx⟩ := live_cont_abs hd hl hgx hxn
+        simp only [restoreAt, Option.some.injEq] at hb; subst hb
+        obtain ⟨hsz, hfr, hst⟩ := Refine.remove_spec hdx hx
+        have := live_restore_refines hi hi' hs hd hl hsz hfr hst
+        refine ⟨_, (by simp only [brun, bstep] <;> rfl), ?_⟩
+        unfold addValueAt
+        exact this
       · rename_i hdot
         simp only [Option.some.injEq] at hb; subst hb
         obtain ⟨y, hx, hf⟩ := outcome_unwrap _ _ he
@@ -575,7 +723,29 @@ theorem hstep_live_refines {h h' : Heap} {root : Addr} {op : HOp} {ret : Option 
         · have := (hboth.2 (Nat.le_of_not_lt hlt)).1
           rw [hms] at this
           cases this
-    | compact c => simp only [HOp.atSub] at hb; cases hb
+    | compact x =>
+      simp only [HOp.atSub] at hb
+      obtain ⟨y, hx, hf⟩ := outcome_unwrap _ _ he
+      cases hf
+      have hcell : ∃ kvs, h.get? x = some (.cont kvs) := by
+        unfold compactH at hx
+        cases hsz0 : h.size with
+        | zero => rw [hsz0] at hx; simp [compactF] at hx
+        | succ n =>
+          rw [hsz0] at hx
+          simp only [compactF] at hx
+          split at hx
+          · rename_i kvs hg; exact ⟨kvs, hg⟩
+          · cases hx
+      obtain ⟨kvs, hgx⟩ := hcell
+      obtain ⟨hrx, dx, rfl, hdx⟩ := live_cont_abs hd hl hgx hxn
+      simp only [restoreAt, Option.some.injEq] at hb; subst hb
+      obtain ⟨hshr, _, hfr, hst⟩ := Refine.compactF_spec h.size h x dx _ hi.mapsOk hdx (sibSep_of_reach hs hrx) hx
+      have := live_restore_refines (P := NoVal) hi hi' hs hd hl (Nat.le_of_eq hshr.size_eq.symm) hfr
+        (hst.weaken (fun b hb => Or.inr (Or.inr (Or.inl hb))))
+      refine ⟨_, (by simp only [brun, bstep] <;> rfl), ?_⟩
+      unfold addValueAt
+      exact this
 
 /-! ## 4. calls on DETACHED handles: no cell of the document changes -/
 
@@ -735,15 +905,17 @@ theorem hstep_detached {h h' : Heap} {root : Addr} {op : HOp} {ret : Option Addr
     * `live`: the call is made on a handle that is LIVE at the path string `p` in the heap the call is
       applied to (`LiveAt`: the root for `p = ""`, else what `root.Lookup(p)` returns now); it attaches
       (if anything) a tree that shares at most leaves with the document (`HOp.TreeOk`) whose
-      abstraction is `vn`; it contributes `HOp.atPath p vn op` — the path-level call at `p`;
+      abstraction is `vn`; `xn` is the abstraction of the handle; it contributes
+      `HOp.atPath p vn xn op` — the path-level call at `p`;
     * `detached`: the call is made on a handle whose graph shares no container / list with the
       document (`Apart`) and is `HOp.Ok`; it contributes NOTHING. -/
 inductive HandleRun (root : Addr) : Heap → List HOp → List BOp → Heap → Prop
   | nil (h : Heap) : HandleRun root h [] [] h
-  | live {h h1 h' : Heap} {op : HOp} {ops : List HOp} {ret : Option Addr} {p : String} {vn : Node}
+  | live {h h1 h' : Heap} {op : HOp} {ops : List HOp} {ret : Option Addr} {p : String} {vn xn : Node}
       {bs bops : List BOp} :
       op.TreeOk h root → LiveAt h root op.target p → (∀ v, op.value = some v → abs h v = some vn) →
-      op.atPath p vn = some bs → hstep h op = .ok (h1, ret) → HandleRun root h1 ops bops h' →
+      abs h op.target = some xn → op.atPath p vn xn = some bs → hstep h op = .ok (h1, ret) →
+      HandleRun root h1 ops bops h' →
       HandleRun root h (op :: ops) (bs ++ bops) h'
   | detached {h h1 h' : Heap} {op : HOp} {ops : List HOp} {ret : Option Addr} {bops : List BOp} :
       op.Ok h → Apart h root op.target → hstep h op = .ok (h1, ret) → HandleRun root h1 ops bops h' →
@@ -768,11 +940,11 @@ theorem HandleRun.refines {root : Addr} {h h' : Heap} {ops : List HOp} {bops : L
         ∃ d', brun d bops = .ok d' ∧ abs h' root = some (.cont d') := by
   induction hrun with
   | nil h => intro d hi hs hrl hd; exact ⟨hi, hs, hrl, rfl, d, rfl, hd⟩
-  | live hok hlive hv hb he _ ih =>
+  | live hok hlive hv hxn hb he _ ih =>
     intro d hi hs hrl hd
     obtain ⟨hi1, hs1⟩ := hstep_tree hi hs hrl hok he
     have hrl1 := Nat.lt_of_lt_of_le hrl (hstep_size_le hi (hok.ok hi hrl) he)
-    obtain ⟨d1, hb1, hd1⟩ := hstep_live_refines hi hs hrl hok hlive hd hv hb he
+    obtain ⟨d1, hb1, hd1⟩ := hstep_live_refines hi hs hrl hok hlive hd hv hxn hb he
     obtain ⟨hi', hs', hrl', hr', d', hb', hd'⟩ := ih hi1 hs1 hrl1 hd1
     exact ⟨hi', hs', hrl', by simp only [Ytk.Heap.hrun, he, hr'], d', by rw [brun_append _ _ _ _ hb1]; exact hb', hd'⟩
   | detached hok hap he _ ih =>
